@@ -1,3 +1,4 @@
+pub mod c02conc;
 pub mod c05;
 pub mod c06;
 pub mod c07;
